@@ -175,3 +175,13 @@ prop(
     level_text="For generated configurations (max outbound 1..8, 1..10 proven peers, honest vectors and vectors deviating from some index on, short / overlapping / gapped / unaligned / one-off-lie messages, all orders of messages and refresh ticks) the final index never decreases, final values are never rewritten, every advance is backed by at least ceil(max_outbound/2) proven peers agreeing on every new index, fewer deviators than the quorum neither finalize a wrong value nor block agreement among at least a quorum of honest peers, and a peer contradicting the final value is banned at the tick that judges it.",
     level_note="peers are brought to the proven state with the cfg(test) helper mock_prove_state (the real handshake is exercised by C05); check point values come from the generated chain's filter hashes",
 )
+
+prop(
+    "C11", "exploration",
+    rule="one evaluation = one observed (peer state before, cause, peer state after) triple judged against the reference automaton transcribed from the plantuml diagram (DESIGN appendix B), "
+         "plus the timeout rule at every refresh tick and the no-residue rule after every removal; a cell = distinct (state, cause, resulting state) triple",
+    sizes=tiers(16, 400, 60, 16, 40000, 900, min_evals=20000, min_cells=40),
+    technique="runtime monitoring: offline automaton conformance over the boundary trace (events, states before/after, disconnects, virtual time), prove-state preservation check, timeout oracle in virtual time",
+    level_text="For generated event sequences (connect, disconnect, refresh / fetch / idle / filter ticks, time advanced to just below and above the 60 s timeout, chain growth, single message deliveries in any order, replayed / stale / unsolicited proofs, muted peers) over 1-3 peers: every state change is an edge of the documented automaton for its cause, a proof changes the prove state only while a proof request is outstanding, a last-state update never discards a prove state, a request or last state older than the timeout leads to a disconnect at the next refresh tick and no disconnect happens without such a cause, and a removed peer leaves no entry behind.",
+    level_note="timeouts of blocks-proof / blocks / transactions-proof requests are not predicted (their send times are private): a disconnect while such a request is outstanding is not judged",
+)
